@@ -9,14 +9,60 @@ C48 — specification: RFC 5849 §3.4.1 (signature base string) and §3.4.2 (HMA
 §3.4.2    key = enc(client shared-secret) "&" enc(token shared-secret)   (the latter empty when there is no token)
 §3.6      percent-encoding: unreserved characters (ALPHA DIGIT - . _ ~) stay, every other byte of the UTF-8 form
           becomes %XX with upper-case hex
+
+What is written here WITHOUT the model's definitions: the percent-encoding of octets (§3.6: the unreserved set as a
+literal character list, the hex digits as a literal table, the encoding as a relation `PctEncoded` with a
+uniqueness theorem, and the function `pctEncodeOctets`), the host/port split and default-port rule (§3.4.1.2),
+the byte order of pairs (§3.4.1.3.2), and the way the pieces are put together (§3.4.1.1, §3.4.2).
+What is SHARED with the model (`open TornadoModel.C48`): the UTF-8 encoder `utf8`, the split of a URL text into
+scheme / authority / path (`splitUrl`; characterised by `splitUrl_assemble` in Props), ASCII case mapping
+`lowerA`/`upperA`, `joinWith`, and the sorting function `sortBy` (characterised by `sortBy_perm` + `sortBy_sorted`
+for every strict order).  These shared parts are tied to Python (`str.encode`, `urlparse`, `lower/upper`,
+`sorted`) by the correspondence check only.
 -/
 import TornadoModel.C48.Model
 namespace TornadoModel.C48.Spec
 open TornadoModel.C48
 
-/-- §3.6 -/
-def pctEncode (s : Str) : Bytes :=
-  (utf8 s).flatMap (fun b => if isUnreserved b then [b] else [cPct, hexUp (b / 16), hexUp (b % 16)])
+/-! ### §3.6 percent-encoding, independent of the model -/
+
+/-- RFC 3986 §2.3: unreserved = ALPHA / DIGIT / "-" / "." / "_" / "~", listed literally -/
+def unreservedSet : List Nat :=
+  "ABCDEFGHIJKLMNOPQRSTUVWXYZabcdefghijklmnopqrstuvwxyz0123456789-._~".toList.map Char.toNat
+
+def unreserved (b : Nat) : Bool := unreservedSet.contains b
+
+/-- the sixteen upper-case hexadecimal digits, in order of value -/
+def hexDigits : List Nat := "0123456789ABCDEF".toList.map Char.toNat
+
+def indexIn (c : Nat) : List Nat → Option Nat
+  | [] => none
+  | x :: xs => if x = c then some 0 else (indexIn c xs).map (· + 1)
+
+/-- the value of an upper-case hexadecimal digit (none for anything else, lower-case letters included) -/
+def hexVal (c : Nat) : Option Nat := indexIn c hexDigits
+
+/-- §3.6 as a relation, clause by clause: `PctEncoded octets text` —
+    "characters in the unreserved character set MUST NOT be encoded" (`keep`),
+    "all other characters MUST be encoded" as `%` followed by the two hexadecimal digits of the octet value, and
+    "the two hexadecimal characters used to represent encoded characters MUST be uppercase" (`esc`, through `hexVal`). -/
+inductive PctEncoded : Bytes → Bytes → Prop
+  | nil : PctEncoded [] []
+  | keep (b : Nat) (bs out : Bytes) : unreserved b = true → PctEncoded bs out → PctEncoded (b :: bs) (b :: out)
+  | esc (b hi lo : Nat) (bs out : Bytes) : unreserved b = false → b < 256 →
+      hexVal hi = some (b / 16) → hexVal lo = some (b % 16) → PctEncoded bs out →
+      PctEncoded (b :: bs) (37 :: hi :: lo :: out)
+
+/-- digit of a value below sixteen: `0`–`9`, then `A`–`F` -/
+def hexDigit (n : Nat) : Nat := if n < 10 then 48 + n else 65 + (n - 10)
+
+/-- the encoding of one octet -/
+def pctEncodeOctet (b : Nat) : Bytes := if unreserved b then [b] else [37, hexDigit (b / 16), hexDigit (b % 16)]
+
+def pctEncodeOctets (bs : Bytes) : Bytes := bs.flatMap pctEncodeOctet
+
+/-- §3.6: text is first encoded as UTF-8 octets, then percent-encoded -/
+def pctEncode (s : Str) : Bytes := pctEncodeOctets (utf8 s)
 
 def isDigit (c : Nat) : Bool := 48 ≤ c && c ≤ 57
 
@@ -30,15 +76,22 @@ def splitPort : Str → Str × Option Str
 def isDefaultPort (scheme port : Str) : Bool :=
   (scheme == sHttp && port == [56, 48]) || (scheme == sHttps && port == [52, 52, 51])
 
-/-- §3.4.1.2 -/
-def baseStringUri (url : Str) : Str :=
-  let (scheme, authority, path) := splitUrl url
+/-- §3.4.1.2 on the components of the URL -/
+def baseStringUriOf (scheme authority path : Str) : Str :=
   let scheme := scheme.map lowerA
   let (host, port) := splitPort (authority.map lowerA)
   let portPart := match port with
     | some p => if isDefaultPort scheme p then [] else cColon :: p
     | none => []
   scheme ++ [58, 47, 47] ++ host ++ portPart ++ (if path.isEmpty then [cSlash] else path)
+
+/-- the URL text `scheme "://" authority path` -/
+def assembleUrl (scheme authority path : Str) : Str := scheme ++ [58, 47, 47] ++ authority ++ path
+
+/-- §3.4.1.2 on the URL text (components taken with the shared `splitUrl`, see `splitUrl_assemble`) -/
+def baseStringUri (url : Str) : Str :=
+  let (scheme, authority, path) := splitUrl url
+  baseStringUriOf scheme authority path
 
 /-- ascending byte value ordering -/
 def bytesLt : Bytes → Bytes → Bool
